@@ -4,6 +4,7 @@
 tier="${1:-quick}"
 for d in /verif/seeded/*/; do
 	id=$(basename "$d"); prop=${id%%-*}
+	if grep -q '"obsolete"' "$d/meta.json"; then echo "$id obsolete (masked by a later fix commit; see meta.json)"; continue; fi
 	mkdir -p /tmp/sa/$id; cp "$d/patch.diff" /tmp/sa/$id/patch1.diff; cp "$d/demo_test.go" /tmp/sa/$id/demo1_test.go
 	extra=$(python3 -c "import json;print(' '.join(json.load(open('$d/meta.json')).get('also_run',[])))" 2>/dev/null)
 	out=$(/verif/tools/seedcheck.sh /tmp/sa/$id 1 "$tier" $prop $extra 2>&1 | grep -v "^WARNING")
